@@ -29,7 +29,7 @@ ASSUMPTIONS = [
     'parallelize runs under the harness-owned scheduler of C18 (one worker); its rows are compared as multisets',
 ]
 EXHAUSTIVE_NOTE = 'the fixed product processors x selector forms x FIXED_PACKAGES is enumerated completely on every run'
-BUDGET = {'quick': dict(examples=800, shards=8, seconds=70),
+BUDGET = {'quick': dict(examples=1600, shards=16, seconds=70),
           'thorough': dict(examples=60000, shards=16, seconds=1200)}
 
 FIXED_PACKAGES = [['b'], ['a', 'ab'], ['a.b', 'a1b', 'axb'], ['a', 'ab', 'a.b', 'a-b'], ['res_1', 'res_10', 'a']]
